@@ -17,6 +17,7 @@
 (*   a, b     definition of blocks a and b: "none" | "def" | "super"       *)
 (*   nest     block b is written INSIDE block a (only if both are defined) *)
 (*   cap      the nested b sits inside a filter section (a capture)        *)
+(*   sa       in block a, super() is written AFTER the nested block b      *)
 (*   z        a top-level block z no ancestor knows (orphan when extending)*)
 (*   unk      references an unknown filter                                 *)
 (*   comp     defines component c1; usec: calls component c1               *)
@@ -25,7 +26,7 @@
 EXTENDS Integers, Sequences, FiniteSets, TLC
 CONSTANT Prefixes          \* fallback prefixes in priority order, e.g. <<"p/">>
 
-Absent == [syn |-> FALSE, ext |-> "", inc |-> "", incpos |-> "", a |-> "none", b |-> "none", nest |-> FALSE, cap |-> FALSE,
+Absent == [syn |-> FALSE, ext |-> "", inc |-> "", incpos |-> "", a |-> "none", b |-> "none", nest |-> FALSE, cap |-> FALSE, sa |-> FALSE,
            z |-> FALSE, unk |-> FALSE, comp |-> FALSE, usec |-> FALSE, here |-> FALSE]
 Leaf == [Absent EXCEPT !.syn = TRUE, !.here = TRUE]
 Present(T) == {n \in DOMAIN T : T[n].here}
@@ -113,8 +114,9 @@ BlockText(T, entry, blk, lvl, fuel, mode) ==
   IF lvl > Len(lin) THEN "!nosuper!"
   ELSE LET t == lin[lvl] d == T[t] IN
        blk \o t \o "("
-       \o (IF Supers(d, blk) THEN BlockText(T, entry, blk, lvl + 1, fuel, mode) ELSE "")
+       \o (IF Supers(d, blk) /\ ~(blk = "a" /\ d.sa) THEN BlockText(T, entry, blk, lvl + 1, fuel, mode) ELSE "")
        \o (IF blk = "a" /\ d.nest /\ d.b # "none" THEN RB(T, entry, "b", fuel) ELSE "")
+       \o (IF Supers(d, blk) /\ blk = "a" /\ d.sa THEN BlockText(T, entry, blk, lvl + 1, fuel, mode) ELSE "")
        \o (IF blk = "a" /\ d.inc # "" /\ d.incpos = "block" THEN Own(T, IncOf(T, t), fuel - 1) ELSE "")
        \o ")"
 RB(T, entry, blk, fuel) == BlockText(T, entry, blk, 1, fuel, "")
